@@ -12,7 +12,11 @@
    What is proved here, for ALL values of the three budgets and ALL task systems of the
    model's language (Exec/Model.v: tasks are finite scripts over Log | Recv | Send t |
    Join t | Yield | End, spawned with spawn_local or tokio::spawn by the callback, one
-   unbounded channel per task, JoinHandles, yield_now):
+   unbounded channel per task, JoinHandles, yield_now; callbacks = at_sim_start, messages
+   handled by handle_message, messages CONSUMED by a processing element -- whose hooks run
+   outside the runtime and may wake tasks through channels, tokio::spawn tasks then going
+   through the scheduler's inject queue -- and the tear-down; every one of them drives the
+   runtime with one Harness::exec, the consumed message with exec of an empty callback):
 
    [KnownClass x] = the event x (budgets, instant, callback actions, state of the task
    system) is over budget: the first round of the executor WITHOUT budgets (one unbounded
@@ -78,8 +82,8 @@ Print Assumptions C06_budget_monotone.
    In a run of the bounded executor in which no event is in the known class, every poll
    has woken = now: the code that follows an await runs in, and observes, the instant
    that satisfied the await. *)
-Theorem C06_await_observes_enabling_instant : forall b ts evs,
-  run_within b ts evs -> polls_timely (run_model b ts evs).
+Theorem C06_await_observes_enabling_instant : forall b g ts start evs,
+  run_within b g ts start evs -> polls_timely (run_model b g ts start evs).
 Proof. exact await_observes_enabling_instant. Qed.
 Print Assumptions C06_await_observes_enabling_instant.
 
@@ -87,7 +91,7 @@ Print Assumptions C06_await_observes_enabling_instant.
    time of the poll it runs in: in the log read backwards, every operation record
    (task, t) directly follows the poll record of that task at t or another operation
    record of the same poll.  (Unconditional.) *)
-Theorem C06_ops_within_their_poll : forall b ts evs, ops_ok (rev (run_model b ts evs)).
+Theorem C06_ops_within_their_poll : forall b g ts start evs, ops_ok (rev (run_model b g ts start evs)).
 Proof. exact ops_within_their_poll. Qed.
 Print Assumptions C06_ops_within_their_poll.
 
@@ -99,44 +103,75 @@ Theorem C06_exec_from_quiescence_is_timely : forall bl br c now now0 acts s,
 Proof. exact exec_from_quiescent_timely. Qed.
 Print Assumptions C06_exec_from_quiescence_is_timely.
 
-(* Non-vacuity: tokio's budgets; a wake chain through both executors inside one instant.
-   Task 0 (tokio::spawn) sends to task 1 (spawn_local) -- which was polled before, in the
-   LocalSet tick, and awaits its channel -- so this event is in the known class ... *)
+(* The consumed-message path (ModuleRef::handle_message when a processing element returns
+   None): the element's hooks wake tasks outside the runtime, then exec(|| {}) drives it.
+   Starting from empty queues, every task polled in that exec was made runnable by those
+   hooks (or during the exec): nothing woken by a consuming element waits for a later event,
+   as long as the exec itself fits the budgets (main theorem). *)
+Theorem C06_consumed_message_is_driven : forall bl br c now now0 pre s,
+  inv now0 s -> quiescent s = true ->
+  polls_timely (trace (ee_st (exec_event bl br c now [] (pre_hooks now pre s)))).
+Proof. exact consumed_event_timely. Qed.
+Print Assumptions C06_consumed_message_is_driven.
+
+(* Non-vacuity: tokio's budgets (global_queue_interval 31); a wake chain through both
+   executors inside one instant.  Task 0 (tokio::spawn) sends to task 1 (spawn_local) --
+   which was polled before, in the LocalSet tick, and awaits its channel -- so this event is
+   in the known class ... *)
 Definition tokio_budgets : budgets := {| b_local := 61; b_rt := 61; b_coop := 128 |}.
 
 Example C06_cross_executor_chain_is_over_budget :
   let ts := [(false, [Log; Send 1]); (true, [Recv; Log])] in
-  let evs := [(5, [Spawn 0; Spawn 1]); (7, [])] in
-  run_model tokio_budgets ts evs =
-  [REvent 0 5; RPoll 1 5 5; RPoll 0 5 5; ROp 0 5; ROp 0 5; RClose 4 1 1 true;
+  let evs := [(5, false, [], [Spawn 0; Spawn 1]); (7, false, [], [])] in
+  run_model tokio_budgets 31 ts [] evs =
+  [RStart 0; RClose 4 0 0 false; REvent 0 5; RPoll 1 5 5; RPoll 0 5 5; ROp 0 5; ROp 0 5; RClose 4 1 1 true;
    REvent 1 12; RPoll 1 5 12; ROp 1 12; ROp 1 12; RClose 4 1 0 false; RClose 5 0 0 false].
 Proof. vm_compute. reflexivity. Qed.
 
 (* ... whereas a chain  spawn_local 0 -> spawn_local 1 -> tokio::spawn 3 -> join by
    tokio::spawn 2  fits (LocalSet tick first, scheduler turn second): all of it runs at
    instant 12, the run is outside the class, and the theorems apply.  With a yield_now in
-   task 3 the same chain is over budget and completes only at instant 15. *)
+   task 3 the same chain is over budget and completes only at instant 15.  Tasks 1..3 are
+   spawned by at_sim_start. *)
 Definition chain_tasks (y : list op) : list (bool * list op) :=
   [(true, [Log; Send 1; Send 2]); (true, [Recv; Log; Send 3]); (false, [Recv; Log; Join 3; Log]); (false, [Recv] ++ y ++ [Log])].
-Definition chain_events : list (N * list act) := [(5, [Spawn 1; Spawn 2; Spawn 3]); (7, [Spawn 0]); (3, [])].
+Definition chain_start : list act := [Spawn 1; Spawn 2; Spawn 3].
+Definition chain_events : list mevent := [(12, false, [], [Spawn 0]); (3, false, [], [])].
 
 Example C06_nonvacuous :
-  run_within tokio_budgets (chain_tasks []) chain_events /\
-  run_model tokio_budgets (chain_tasks []) chain_events =
-  [REvent 0 5; RPoll 1 5 5; RPoll 2 5 5; RPoll 3 5 5; RClose 4 1 2 false;
-   REvent 1 12; RPoll 0 12 12; ROp 0 12; ROp 0 12; ROp 0 12; RPoll 1 12 12; ROp 1 12; ROp 1 12; ROp 1 12;
+  run_within tokio_budgets 31 (chain_tasks []) chain_start chain_events /\
+  run_model tokio_budgets 31 (chain_tasks []) chain_start chain_events =
+  [RStart 0; RPoll 1 0 0; RPoll 2 0 0; RPoll 3 0 0; RClose 4 1 2 false;
+   REvent 0 12; RPoll 0 12 12; ROp 0 12; ROp 0 12; ROp 0 12; RPoll 1 12 12; ROp 1 12; ROp 1 12; ROp 1 12;
    RPoll 2 12 12; ROp 2 12; ROp 2 12; RPoll 3 12 12; ROp 3 12; ROp 3 12; RPoll 2 12 12; ROp 2 12; ROp 2 12;
-   RClose 4 2 3 false; REvent 2 15; RClose 4 0 0 false; RClose 5 0 0 false].
+   RClose 4 2 3 false; REvent 1 15; RClose 4 0 0 false; RClose 5 0 0 false].
 Proof.
   split; [|vm_compute; reflexivity].
   unfold run_within, chain_events. cbn [all_within]. repeat split; intro H; vm_compute in H; discriminate.
 Qed.
 
 Example C06_yield_is_over_budget :
-  run_model tokio_budgets (chain_tasks [Yield]) chain_events =
-  [REvent 0 5; RPoll 1 5 5; RPoll 2 5 5; RPoll 3 5 5; RClose 4 1 2 false;
-   REvent 1 12; RPoll 0 12 12; ROp 0 12; ROp 0 12; ROp 0 12; RPoll 1 12 12; ROp 1 12; ROp 1 12; ROp 1 12;
+  run_model tokio_budgets 31 (chain_tasks [Yield]) chain_start chain_events =
+  [RStart 0; RPoll 1 0 0; RPoll 2 0 0; RPoll 3 0 0; RClose 4 1 2 false;
+   REvent 0 12; RPoll 0 12 12; ROp 0 12; ROp 0 12; ROp 0 12; RPoll 1 12 12; ROp 1 12; ROp 1 12; ROp 1 12;
    RPoll 2 12 12; ROp 2 12; ROp 2 12; RPoll 3 12 12; ROp 3 12; RClose 4 2 2 true;
-   REvent 2 15; RPoll 3 12 15; ROp 3 15; ROp 3 15; RPoll 2 15 15; ROp 2 15; ROp 2 15; RClose 4 0 2 false;
+   REvent 1 15; RPoll 3 12 15; ROp 3 15; ROp 3 15; RPoll 2 15 15; ROp 2 15; ROp 2 15; RClose 4 0 2 false;
    RClose 5 0 0 false].
 Proof. vm_compute. reflexivity. Qed.
+
+(* A message consumed by a processing element whose incoming hook sends to task 0
+   (tokio::spawn: inject queue) and task 1 (spawn_local): handle_message is not called (its
+   actions are ignored), the exec of the empty callback polls both at instant 5; the next
+   message is passed on, its hook wakes task 0 again. *)
+Example C06_consumed_message_nonvacuous :
+  let ts := [(false, [Recv; Log; Recv; Log]); (true, [Recv; Log])] in
+  let evs := [(5, true, [ASend 0; ASend 1], [ASend 0]); (7, false, [ASend 0], [])] in
+  run_within tokio_budgets 31 ts [Spawn 0; Spawn 1] evs /\
+  run_model tokio_budgets 31 ts [Spawn 0; Spawn 1] evs =
+  [RStart 0; RPoll 1 0 0; RPoll 0 0 0; RClose 4 1 1 false;
+   REvent 0 5; RPoll 1 5 5; ROp 1 5; ROp 1 5; RPoll 0 5 5; ROp 0 5; ROp 0 5; RClose 4 1 1 false;
+   REvent 1 12; RPoll 0 12 12; ROp 0 12; ROp 0 12; RClose 4 0 1 false; RClose 5 0 0 false].
+Proof.
+  split; [|vm_compute; reflexivity].
+  unfold run_within. cbn [all_within]. repeat split; intro H; vm_compute in H; discriminate.
+Qed.
